@@ -59,11 +59,12 @@ PendNonce(a) == LET ns == { t.n : t \in { u \in pool : u.a = a } } IN
                 LET RECURSIVE Up(_)
                     Up(k) == IF k \in ns THEN Up(k + 1) ELSE k IN Up(sa.nonce[a])
 \* kinds: "transfer" (moves x), "drain" (moves all but 1 of the balance the sender has NOW), "biggas" (a staking message
-\* that fails in its handler: included, burns its whole gas limit), "gap" (a transfer one nonce ahead)
+\* that fails in its handler: included, burns its whole gas limit), "gap" (a transfer one nonce ahead), "widegas" (a
+\* transfer whose gas limit is the block's: it needs the whole gas pool to start and uses TxGas)
 Submit ==
    /\ phase = "submit" /\ Cardinality(pool) < MaxSubmit /\ nid <= 2 * MaxSubmit
-   /\ \E a \in Accts, k \in {"transfer", "drain", "biggas", "gap"}, p \in {1, 2} :
-        LET g  == IF k = "biggas" THEN 2 ELSE TxGas
+   /\ \E a \in Accts, k \in {"transfer", "drain", "biggas", "gap", "widegas"}, p \in {1, 2} :
+        LET g  == IF k = "biggas" THEN 2 ELSE IF k = "widegas" THEN BlockGas ELSE TxGas   \* gas LIMIT classes: exact, ample, the block's
             x  == IF k = "drain" THEN sa.bal[a] - 1 - g * p ELSE 1
             nn == PendNonce(a) + (IF k = "gap" THEN 1 ELSE 0)
             t  == [a |-> a, n |-> nn, p |-> p, g |-> g, k |-> k, x |-> IF x < 0 THEN 0 ELSE x] IN
